@@ -308,5 +308,57 @@ class TranslateSensorJacobian(Contract):
             check_substitution(P, pre, W, ex.pairs_seq, [(W.n, W.AS, "state.state.{}()"), (W.c, W.ACal, "calibration.{}()")])
 
 
+class TranslateSensorCovariance(Contract):
+    """cpp.ExtendedKalmanFilter._translate_sensor_covariance_impl(covariance)
+    ensures  yields rows x cols statements in row-major order; statement (i, j) = (f"covariance({i}, {j})", covariance.data[i, j])."""
+
+    assignable = ()
+    key = "formak.cpp:ExtendedKalmanFilter._translate_sensor_covariance_impl"
+    prefix = "C02.cxxgen.ExtendedKalmanFilter._translate_sensor_covariance_impl"
+
+    def setup(self, I):
+        from pvc.sym import Mat, SMat
+
+        W = GenWorld(I, True)
+        P = I.path
+        m = P.fresh_int("n_readings")
+        P.assume(m >= 0)
+        data = SMat(z3.Const("Q_data", Mat), shape=(SInt(m), SInt(m)), ident=object())
+        cov = SObj("ReadingCovariance", {"shape": (SInt(m), SInt(m)), "data": data}, "covariance")
+        return Call([W.generator(I, "ExtendedKalmanFilter"), cov], {}, W=W, m=m, data=data)
+
+    def post(self, I, call, outcome):
+        from pvc.interp import Flat2Seq
+        from pvc.sym import to_real
+
+        P, pre, m = I.path, self.prefix, call.m
+        if outcome[0] == "raise":
+            P.oblige(f"{pre}.no_exception", z3.BoolVal(False), note=f"raises {outcome[1]}")
+            return
+        rv = outcome[1]
+        seq = rv.seq if isinstance(rv, GenV) else rv
+        ok = isinstance(seq, Flat2Seq)
+        P.oblige(f"{pre}.yields_one_statement_per_cell_in_row_major_order", z3.BoolVal(ok), note=f"yielded value {type(seq).__name__}")
+        if not ok:
+            return
+        P.oblige(f"{pre}.dimensions", z3.And(to_int(seq.rows) == m, to_int(seq.cols) == m))
+        r, c = z3.Int("r_any"), z3.Int("c_any")
+        el = seq.cell(r, c)
+        okc = isinstance(el, tuple) and len(el) == 2 and isinstance(el[0], FmtV)
+        P.oblige(f"{pre}.statement_shape", z3.BoolVal(okc))
+        if not okc:
+            return
+        parts = el[0].parts
+        skel = "".join(p if isinstance(p, str) else "{}" for p in parts)
+        holes = [p for p in parts if not isinstance(p, str)]
+        rng = z3.And(r >= 0, r < m, c >= 0, c < m)
+        P.oblige(f"{pre}.target_is_the_cell_of_its_row_and_column", z3.Implies(rng, z3.And(to_int(holes[0]) == r, to_int(holes[1]) == c)) if skel == "covariance({}, {})" and len(holes) == 2 else z3.BoolVal(False), note=f"target text {skel}")
+        try:
+            val = to_real(el[1])
+            P.oblige(f"{pre}.value_is_the_noise_matrix_entry", z3.Implies(rng, val == call.data.el(r, c)))
+        except Exception:
+            P.oblige(f"{pre}.value_is_the_noise_matrix_entry", z3.BoolVal(False), note="statement value is not a number")
+
+
 def contracts():
-    return [TranslateStateModel(True), TranslateStateModel(False), TranslateSensorModel(), TranslateJacobian("process"), TranslateJacobian("control"), TranslateSensorJacobian()]
+    return [TranslateSensorCovariance(), TranslateStateModel(True), TranslateStateModel(False), TranslateSensorModel(), TranslateJacobian("process"), TranslateJacobian("control"), TranslateSensorJacobian()]
